@@ -184,6 +184,10 @@ def get_image_quadrants(IM, reorient=True, symmetry_axis=None,
         return Q0, Q1, Q2, Q3
 
     elif symmetrize_method == "average":
+        if (symmetry_axis != [None] and
+                not np.issubdtype(Q0.dtype, np.inexact)):
+            # sums of integer quadrants must not overflow (e.g. uint8)
+            Q0, Q1, Q2, Q3 = (Q.astype(float) for Q in (Q0, Q1, Q2, Q3))
         if 0 in symmetry_axis and 1 in symmetry_axis:
             Q = (Q0 + Q1 + Q2 + Q3)/np.sum(use_quadrants)
             return Q, Q, Q, Q
